@@ -412,7 +412,7 @@ def assist_proposals(run, twin=None):
                 return table
 
         class Ctx(object):
-            def evaluate(self, node):
+            def evaluate(self, node, *a_, **k_):
                 return Val()
 
         class Flow(object):
